@@ -50,6 +50,9 @@ fn build_refname_set(module: &Module) -> HashSet<String> {
     for name in module.instance.keys() {
         refnames.insert(name.clone());
     }
+    for name in module.axis_pts.keys() {
+        refnames.insert(name.clone());
+    }
 
     refnames
 }
